@@ -207,7 +207,8 @@ class Interp:
             return self.native(cls, args, kwargs)
         obj = object.__new__(cls)
         init = inspect.getattr_static(cls, "__init__")
-        if dataclasses.is_dataclass(cls) and not is_interpretable(init):
+        generated = isinstance(init, types.FunctionType) and init.__code__.co_filename.startswith("<")
+        if dataclasses.is_dataclass(cls) and (generated or not is_interpretable(init)):
             flds = [f for f in dataclasses.fields(cls) if f.init]
             if len(args) > len(flds):
                 raise PyRaise(TypeError("too many positional arguments"), implicit=True)
@@ -362,6 +363,8 @@ class Interp:
                 return
             self.assign(s.target, ops.binop(self, s.op, cur, rhs), env, g, fn)
         elif isinstance(s, ast.If):
+            if self.ghost_only_if(s, env, g, fn):
+                return
             if ops.truth(self, self.eval(s.test, env, g, fn)):
                 self.exec_block(s.body, env, g, fn)
             else:
@@ -412,6 +415,34 @@ class Interp:
             env.setdefault("__nonlocal_decl__", set()).update(s.names)
         else:
             raise Undecided(f"statement {type(s).__name__}")
+
+    def ghost_only_if(self, s, env, g, fn):
+        """`if c: warnings.warn(...)` (no else): the body only records a ghost event, so the two paths are merged
+        into one with a conditional event instead of forking (keeps byte loops from exploding into 2^n paths)."""
+        import warnings
+        if s.orelse or len(s.body) != 1 or not isinstance(s.body[0], ast.Expr) or not isinstance(
+                s.body[0].value, ast.Call):
+            return False
+        call = s.body[0].value
+        try:
+            f = self.eval(call.func, env, g, fn)
+        except (PyRaise, Undecided):
+            return False
+        if f is not warnings.warn:
+            return False
+        c = self.eval(s.test, env, g, fn)
+        if not isinstance(c, SBool):
+            if ops.truth(self, c):
+                self.eval(call, env, g, fn)
+            return True
+        cat = UserWarning
+        if len(call.args) > 1:
+            cat = self.eval(call.args[1], env, g, fn)
+        for k in call.keywords:
+            if k.arg == "category":
+                cat = self.eval(k.value, env, g, fn)
+        self.e.event("warn", cat, c.z)
+        return True
 
     def exec_with(self, s, env, g, fn):
         # only context managers with a model (warnings.catch_warnings) or concrete native ones
